@@ -134,6 +134,74 @@ func ruleLegacyFold(c *Ctx) {
 	}
 }
 
+// ruleLegacyFoldServer: the plugin side registers the legacy pair only when a
+// legacy plugin set exists (a nil set under version 0 would be a served version).
+func ruleLegacyFoldServer(c *Ctx) {
+	p := c.P
+	f := p.Fn("protocolVersion")
+	if f == nil {
+		c.R.Undecided("R-NEG", "protocolVersion", "anchor", "function not found")
+		return
+	}
+	info := f.Pkg.TypesInfo
+	g := p.Graph(f)
+	vpF := p.FieldObj(modPath, "ServeConfig", "VersionedPlugins")
+	plF := p.FieldObj(modPath, "ServeConfig", "Plugins")
+	found := false
+	for _, m := range g.Nodes {
+		as, ok := m.Ast.(*ast.AssignStmt)
+		if !ok || len(as.Lhs) != 1 || len(as.Rhs) != 1 {
+			continue
+		}
+		ix, ok := ast.Unparen(as.Lhs[0]).(*ast.IndexExpr)
+		if !ok || SelField(info, ix.X) != vpF {
+			continue
+		}
+		// the stored value: the legacy field or a local bound to it
+		var local *types.Var
+		rhs := ast.Unparen(as.Rhs[0])
+		isLegacy := SelField(info, rhs) == plF
+		if v, ok := identObj(info, rhs).(*types.Var); ok && !v.IsField() {
+			// a local that was initialised from the legacy field (it may be re-bound
+			// later, in the negotiation loop; the store precedes that)
+			for _, d := range g.Nodes {
+				if d.Ast == nil {
+					continue
+				}
+				defs, _ := nodeDefsUses(info, d.Ast)
+				if r, ok := defs[v]; ok && r != nil && SelField(info, r) == plF {
+					isLegacy, local = true, v
+				}
+			}
+		}
+		if !isLegacy {
+			continue
+		}
+		found = true
+		viaSet := g.OnlyViaEdge(m, func(e *Edge) bool {
+			at, ok := edgeAtom(info, e)
+			if !ok || at.Kind != "nil" || at.Op != token.NEQ {
+				if ok && at.Kind == "len" && (at.Op == token.GTR && at.K == 0 || at.Op == token.NEQ && at.K == 0 || at.Op == token.GEQ && at.K == 1) {
+					if SelField(info, at.X) == plF || (local != nil && identObj(info, at.X) == local) {
+						return true
+					}
+				}
+				return false
+			}
+			return SelField(info, at.X) == plF || (local != nil && identObj(info, at.X) == local)
+		})
+		construct := "legacy ProtocolVersion/Plugins registered only if a legacy set exists (plugin side)"
+		if viaSet {
+			c.R.Hold("R-NEG", p.Pos(as), f.Name, construct, "the store is reachable only on the non-nil edge of the legacy plugin set", true)
+		} else {
+			c.R.Violate("R-NEG", p.Pos(as), f.Name, construct, "the legacy pair is stored into VersionedPlugins even when no legacy plugin set is configured: the plugin then serves a spurious version (0 by default) with a nil plugin set, which a host without a common real version negotiates instead of failing", nil)
+		}
+	}
+	if !found {
+		c.R.Undecided("R-NEG", f.Name, "legacy fold", "no store VersionedPlugins[v] = <legacy Plugins> found")
+	}
+}
+
 // ---------- R-BOUND/window: the pending-window timers agree; the shutdown deadline is seconds ----------
 
 func ruleWindows(c *Ctx) {
